@@ -129,6 +129,10 @@ pub fn run(args: &[String]) {
                 let ents = match i % 5 { 0 => vec![("C".to_string(), 0, 6), ("H".to_string(), 0, 12), ("O".to_string(), 0, 6)],
                                          1 => vec![("K".to_string(), 0, 300)],
                                          2 => if i % 10 == 2 { vec![("Cl".to_string(), 0, 2)] } else { vec![("C".to_string(), 0, 2)] },
+                                         // far beyond the stated domain's size: the monoisotopic probability itself is below f64's range
+                                         4 if i % 10 == 9 => match (i / 10) % 3 { 0 => vec![("C".to_string(), 0, 70000)],
+                                                                                  1 => vec![("K".to_string(), 0, 11000), ("O".to_string(), 0, 3)],
+                                                                                  _ => vec![("C".to_string(), 0, 100000), ("H".to_string(), 0, 150000), ("O".to_string(), 0, 30000)] },
                                          _ => { let mut e = gen_comp(&mut rng, &faithful, 4, 400); if e.iter().all(|x| x.2 == 0) { e[0].2 = 2; } e } };
                 let reqs: Vec<Req> = match i % 3 {
                     0 => vec![Req::I32(-3), Req::I32(-1), Req::I32(0), Req::I32(1), Req::I32(2), Req::I32(3), Req::I32(rng.range(4, 320) as i32),
@@ -136,6 +140,8 @@ pub fn run(args: &[String]) {
                     1 => (0..8).map(|_| Req::I32(rng.range(-3, 320) as i32)).collect(),
                     _ => vec![Req::F32(0.0), Req::F32(1.0), Req::F32(rng.below(101) as f32 / 100.0), Req::F32(0.9999), Req::F32(0.5)],
                 };
+                // (huge compositions: short fixed requests only -- the exact oracle's cost grows with order^2)
+                let reqs = if i % 10 == 9 { vec![Req::I32(1), Req::I32(2), Req::I32(6), Req::Usize(12), Req::Opt(Some(3))] } else { reqs };
                 for r in reqs {
                     let charge = *rng.pick(&[0, 0, 1, 2, -1]);
                     let mut rec = one_case(id, &ents, rng.chance(1, 4), &r, charge, PROTON, "c09");
@@ -147,6 +153,22 @@ pub fn run(args: &[String]) {
                         rec["alt_fixed"] = json!({"n": k, "out": match alt { Ok(p) => peaks_json(&p), Err(_) => json!("panic") }});
                     }
                     println!("{}", rec);
+                    id += 1;
+                }
+            }
+        }
+        "mz" => {
+            // the two conversion functions of mz.rs called directly: every non-zero charge in -8..=8, four carriers
+            use chemical_elements::{mass_charge_ratio, neutral_mass};
+            let mut id = 0;
+            for k in 0..n {
+                let m = match k % 4 { 0 => rng.unit() * 3000.0, 1 => rng.unit() * 1e6, 2 => rng.unit() * 50.0, _ => 1.0 + rng.unit() * 2e4 };
+                for z in -8..=8i32 {
+                    if z == 0 { continue; }
+                    let carrier = carriers[(k + z.unsigned_abs() as usize) % 4];
+                    let mcr = mass_charge_ratio(m, z, carrier);
+                    println!("{}", json!({"id": id, "m": hexf(m), "z": z, "carrier": hexf(carrier), "mcr": hexf(mcr),
+                                          "inv": hexf(neutral_mass(mcr, z, carrier)), "nm": hexf(neutral_mass(m, z, carrier))}));
                     id += 1;
                 }
             }
@@ -167,32 +189,37 @@ pub fn run(args: &[String]) {
         }
         _ => {
             // c08: call histories on one generator, plus concurrent use
-            let pool: Vec<(Vec<(String, u16, i32)>, Req, i32)> = vec![
-                (vec![("C".into(), 0, 6), ("H".into(), 0, 12), ("O".into(), 0, 6)], Req::I32(5), 1),
-                (vec![("C".into(), 0, 600), ("H".into(), 0, 1200), ("O".into(), 0, 600)], Req::I32(40), 2),
-                (vec![("C".into(), 0, 2)], Req::I32(3), 0),
-                (vec![("H".into(), 0, 2), ("O".into(), 0, 1)], Req::I32(0), 1),
-                (vec![("C".into(), 0, 60), ("N".into(), 0, 10), ("S".into(), 0, 2)], Req::I32(12), -1),
-                (vec![("O".into(), 0, 30), ("C".into(), 0, 1)], Req::I32(25), 1),
-                (vec![("K".into(), 0, 20), ("C".into(), 0, 300)], Req::F32(0.99), 3),
-                (vec![("N".into(), 0, 4), ("C".into(), 0, 34), ("H".into(), 0, 53), ("O".into(), 0, 15)], Req::I32(8), 2),
+            let pool: Vec<(Vec<(String, u16, i32)>, Req, i32, f64)> = vec![
+                (vec![("C".into(), 0, 6), ("H".into(), 0, 12), ("O".into(), 0, 6)], Req::I32(5), 1, PROTON),
+                (vec![("C".into(), 0, 600), ("H".into(), 0, 1200), ("O".into(), 0, 600)], Req::I32(40), 2, PROTON),
+                (vec![("C".into(), 0, 2)], Req::I32(3), 0, PROTON),
+                (vec![("H".into(), 0, 2), ("O".into(), 0, 1)], Req::I32(0), 1, PROTON),
+                (vec![("C".into(), 0, 60), ("N".into(), 0, 10), ("S".into(), 0, 2)], Req::I32(12), -1, PROTON),
+                (vec![("O".into(), 0, 30), ("C".into(), 0, 1)], Req::I32(25), 1, PROTON),
+                (vec![("K".into(), 0, 20), ("C".into(), 0, 300)], Req::F32(0.99), 3, PROTON),
+                (vec![("N".into(), 0, 4), ("C".into(), 0, 34), ("H".into(), 0, 53), ("O".into(), 0, 15)], Req::I32(8), 2, PROTON),
                 // elements with long isotope ladders: their initial tables are longer than a small request needs
-                (vec![("C".into(), 0, 5), ("H".into(), 0, 11), ("N".into(), 0, 1), ("O".into(), 0, 2), ("Se".into(), 0, 1)], Req::I32(3), 1),
-                (vec![("C".into(), 0, 10), ("H".into(), 0, 20), ("N".into(), 0, 2), ("O".into(), 0, 4), ("Se".into(), 0, 2)], Req::I32(12), 2),
-                (vec![("Sn".into(), 0, 2), ("C".into(), 0, 4)], Req::I32(2), 1),
+                (vec![("C".into(), 0, 5), ("H".into(), 0, 11), ("N".into(), 0, 1), ("O".into(), 0, 2), ("Se".into(), 0, 1)], Req::I32(3), 1, PROTON),
+                (vec![("C".into(), 0, 10), ("H".into(), 0, 20), ("N".into(), 0, 2), ("O".into(), 0, 4), ("Se".into(), 0, 2)], Req::I32(12), 2, PROTON),
+                (vec![("Sn".into(), 0, 2), ("C".into(), 0, 4)], Req::I32(2), 1, PROTON),
+                // the same request as the first one but for the carrier; elements whose `element_number`s collide
+                // (Ar / Ca are both 40 in this table) -- a cache or memo keyed on too little confuses them
+                (vec![("C".into(), 0, 6), ("H".into(), 0, 12), ("O".into(), 0, 6)], Req::I32(5), 1, 22.989218),
+                (vec![("Ar".into(), 0, 3)], Req::I32(4), 1, PROTON),
+                (vec![("Ca".into(), 0, 1), ("C".into(), 0, 1), ("O".into(), 0, 3)], Req::I32(6), 1, PROTON),
             ];
-            let stateless: Vec<Value> = pool.iter().map(|(e, r, z)| {
+            let stateless: Vec<Value> = pool.iter().map(|(e, r, z, cr)| {
                 let c = build(e, false);
-                match guarded(|| isotopic_variants(c.clone(), r.spec(), *z, PROTON)) { Ok(p) => peaks_json(&p), Err(_) => json!("panic") }
+                match guarded(|| isotopic_variants(c.clone(), r.spec(), *z, *cr)) { Ok(p) => peaks_json(&p), Err(_) => json!("panic") }
             }).collect();
-            let cases: Vec<Value> = pool.iter().enumerate().map(|(i, (e, r, z))| one_case(i, e, false, r, *z, PROTON, "pool")).collect();
+            let cases: Vec<Value> = pool.iter().enumerate().map(|(i, (e, r, z, cr))| one_case(i, e, false, r, *z, *cr, "pool")).collect();
             println!("{}", json!({"pool": cases, "stateless": stateless}));
             let run_hist = |h: &[usize]| -> Vec<Value> {
                 let mut g = BafflingRecursiveIsotopicPatternGenerator::new();
                 h.iter().map(|i| {
-                    let (e, r, z) = &pool[*i];
+                    let (e, r, z, cr) = &pool[*i];
                     let c = build(e, false);
-                    match guarded(|| g.isotopic_variants(c, r.spec(), *z, PROTON)) { Ok(p) => peaks_json(&p), Err(_) => json!("panic") }
+                    match guarded(|| g.isotopic_variants(c, r.spec(), *z, *cr)) { Ok(p) => peaks_json(&p), Err(_) => json!("panic") }
                 }).collect()
             };
             let mut id = 0;
@@ -227,10 +254,10 @@ pub fn run(args: &[String]) {
                     let mut hs = Vec::new();
                     for j in 0..pool.len() * 2 {
                         let i = (j * 3 + t) % pool.len();
-                        let (e, r, z) = &pool[i];
+                        let (e, r, z, cr) = &pool[i];
                         let c = build(e, false);
-                        let o = if j % 2 == 0 { guarded(|| g.isotopic_variants(c, r.spec(), *z, PROTON)) }
-                                else { guarded(|| isotopic_variants(c, r.spec(), *z, PROTON)) };
+                        let o = if j % 2 == 0 { guarded(|| g.isotopic_variants(c, r.spec(), *z, *cr)) }
+                                else { guarded(|| isotopic_variants(c, r.spec(), *z, *cr)) };
                         outs.push(match o { Ok(p) => peaks_json(&p), Err(_) => json!("panic") });
                         hs.push(i);
                     }
